@@ -98,12 +98,12 @@ deriving DecidableEq
 def pcRole : Pc → Role
   | .idle | .x10 | .x11 | .x12 | .x13 | .x14 | .x15 | .x16 | .l20 | .l21 _ => .any
   | .s30 _ | .s31 _ | .s32 _ _ | .s33 _ _ | .s34 _ _ | .s35 _ _ | .s36 _ _ | .s36w _ _ | .s37 _ _
-  | .s38 _ _ _ | .w40 _ | .w41c _ _ _ | .w42 _ _ | .w43 _ | .w44 _ | .w45 _
+  | .s38 _ _ _ | .s39 _ _ | .w40 _ | .w41c _ _ _ | .w42 _ _ | .w43 _ | .w44 _ | .w45 _
   | .c50 _ _ | .c51 _ | .c52 _ | .c53 _ | .f0 _ _ _
   | .g110 _ _ | .g112 _ _ _ | .g111 _ _ _ _ | .g111c _ _ _ _ _ | .g111r _ _ _ => .prod
   | .r60 _ | .r61 _ | .r62 _ _ | .r63c _ _ _ _ _ | .r64 _ _ _ | .r65 _ _ _ | .r66 _ _ _ | .r67 _ _ _
-  | .r73 _ _ | .r74 _ _ | .r75 _ _ | .r76 _ _ | .r77 _ _ | .r77w _ _ | .r78 _ _ | .r79 _
-  | .p80 _ _ | .p81 _ _ _ | .p82 _ _ _ | .p83 _ _ _ | .p84 _ _ _ | .p85 _ _ _ | .p86 _ _ _ | .p86w _ _ _
+  | .r73 _ _ | .r74 _ _ | .r75 _ _ | .r75r _ _ | .r76 _ _ | .r77 _ _ | .r77w _ _ | .r78 _ _ | .r79 _
+  | .p84r _ _ _ | .p80 _ _ | .p81 _ _ _ | .p82 _ _ _ | .p83 _ _ _ | .p84 _ _ _ | .p85 _ _ _ | .p86 _ _ _ | .p86w _ _ _
   | .p87 _ _ _ | .p88 _ _ _ _ | .p89c _ _ _ _ _ _
   | .k100 _ | .k101 _ _ | .k102 _ _ | .k103 _ | .k104 _ | .k105 _ | .u0 _ _ _ _ => .cons
 
